@@ -33,9 +33,19 @@ def model(tier, rep, tag="types"):
     kinds = {}
     for g in gen:
         kinds[g["g"]] = kinds.get(g["g"], 0) + 1
-    rep.cov["modules"]["Types"].update({"items": kinds})
+    names = set()
+    for g in gen:
+        if g["g"] in ("type", "pair"):
+            names |= set(g["val"]) | set(x["tr"] for x in g["tr"]) | set(g.get("has", []))
+        elif g["g"] == "limits":
+            names |= set(g["val"]) | set(g["limbs"])
+    rep.cov["modules"]["Types"].update({"items": kinds, "trait_names": len(names)})
     rep.cov["exhaustive"] = True
     return gen
+
+
+class HeadersIllFormed(Exception):
+    """#include of the library headers + the generated declarations does not compile (no row is involved)."""
 
 
 def compile_chunk(impl, decls, path, rows, out):
@@ -70,7 +80,9 @@ def compile_chunk(impl, decls, path, rows, out):
                 except subprocess.TimeoutExpired:
                     raise vlib.ModelFailure("compile timeout: " + " ".join(cmd))
             if fails(0):
-                raise vlib.ModelFailure("compile failed outside the generated rows: %s\n%s" % (" ".join(cmd), p.stderr[-4000:]))
+                # not even the empty table compiles: the headers themselves are ill-formed for this translation unit
+                errs = [l for l in p.stderr.splitlines() if "error" in l]
+                raise HeadersIllFormed((errs[0] if errs else p.stderr[-300:])[:400])
             lo, hi = 0, len(rows)       # prefix lo compiles, prefix hi fails
             while hi - lo > 1:
                 mid = (lo + hi) // 2
@@ -93,8 +105,16 @@ def build_and_run(gen, tier, impl, tag="types", k=None):
     def one(i):
         path, rows = g["chunks"][i]
         out = os.path.join(d, "bin_%d" % i)
-        ill = compile_chunk(impl, g["decls"], path, rows, out)
         tp = os.path.join(d, "trace_%d.ndjson" % i)
+        try:
+            ill = compile_chunk(impl, g["decls"], path, rows, out)
+        except HeadersIllFormed as e:
+            # an observation like a row that does not compile (cf. the "trap" events of vlib): the translation unit that only
+            # includes the headers and declares the zoo is ill-formed; TypesTrace.tla judges it
+            with open(tp, "w") as f:
+                f.write(json.dumps({"op": "translation_unit", "trait": "translation_unit", "ill": True, "diag": str(e)}) + "\n")
+            vlib.log("[build] %s: headers ill-formed: %s" % (os.path.basename(out), str(e)[:200]))
+            return tp, len(rows)
         vlib.run([out], tp, timeout=600)
         return tp, len(ill)
     with ThreadPoolExecutor(max_workers=min(vlib.NCPU, 8)) as ex:
